@@ -16,4 +16,14 @@ SPECS = {
              "giles_core": True, "on_raise": "(IZR (-1))", "elementwise": {"arrays": ["cl_zerocost"], "uninit": "0"}},
         ],
     },
+    # the rate regression of Engine.price (nested function) and its call sites: emitters in harness/py2coq_c06.py
+    "GenC06Regress": {
+        "file": "rpylib/montecarlo/multilevel/engine.py",
+        "dom": "R",
+        "header": "From Coq Require Import ZArith Reals Bool List.\nFrom RV Require Import Base.RB Model.Regress.\nOpen Scope R_scope.\n",
+        "funcs": [
+            {"py": "Engine.price.log2_regression", "coq": "log2_regression", "emitter": "py2coq_c06:log2_regression"},
+            {"py": "Engine.price", "coq": "rate_call_sites", "emitter": "py2coq_c06:call_sites"},
+        ],
+    },
 }
